@@ -48,7 +48,11 @@ func ask(mgr *waddrmgr.Manager, ns walletdb.ReadBucket) (map[string]string, erro
 			if ma, err := sm.LastInternalAddress(ns, a); err == nil {
 				li = ma.Address().EncodeAddress()
 			}
-			out[fmt.Sprintf("%v/%d", sc, a)] = fmt.Sprintf("name=%q ext=%d int=%d lastExt=%s lastInt=%s", p.AccountName, p.ExternalKeyCount, p.InternalKeyCount, le, li)
+			// the name through the other accessors as well
+			byNum, err1 := sm.AccountName(ns, a)
+			byName, err2 := sm.LookupAccount(ns, p.AccountName)
+			out[fmt.Sprintf("%v/%d", sc, a)] = fmt.Sprintf("name=%q ext=%d int=%d lastExt=%s lastInt=%s accountName=%q(%v) lookup=%d(%v)", p.AccountName, p.ExternalKeyCount,
+				p.InternalKeyCount, le, li, byNum, err1, byName, err2)
 		}
 	}
 	return out, nil
@@ -104,7 +108,7 @@ func TestC08WalletLevel(t *testing.T) {
 		for i := 0; i < steps; i++ {
 			sc := waddrmgr.DefaultKeyScopes[rapid.IntRange(0, 3).Draw(t, "scope")]
 			acct := uint32(rapid.IntRange(0, 1).Draw(t, "account"))
-			op := rapid.SampledFrom([]string{"new", "change", "create-dry", "create-dry", "create", "fundpsbt", "import-dry", "import-dry", "import"}).Draw(t, "op")
+			op := rapid.SampledFrom([]string{"new", "change", "create-dry", "create-dry", "create", "fundpsbt", "import-dry", "import-dry", "import", "rename"}).Draw(t, "op")
 			out := wire.NewTxOut(1500, s.ExternalScript())
 			isDry := false
 			var err error
@@ -127,6 +131,14 @@ func TestC08WalletLevel(t *testing.T) {
 				_, err = s.F.W.FundPsbt(pkt, &sc, 1, acct, 1000, wallet.CoinSelectionLargest)
 				if err != nil {
 					isDry = true
+				}
+			case "rename":
+				nn := fmt.Sprintf("r%d%s", i, rapid.StringMatching(`[a-z]{1,4}`).Draw(t, "newName"))
+				err = s.F.W.RenameAccount(sc, acct, nn)
+				if err != nil {
+					isDry = true // a refused rename must not change anything
+				} else {
+					c.Class("account-renamed")
 				}
 			case "import-dry", "import":
 				isDry = op == "import-dry"
